@@ -121,7 +121,7 @@ def c01(out):
                 "compared with an independent cell/table model of the specification (both directions directly). distinct = distinct (variant,direction,key,block) hashes; all are non-trivial.")
     v = [("prod", n(out, 12 * 11000, 12 * 400000)), ("asan", n(out, 12 * 9000, 12 * 60000)), ("prod+W32", n(out, 12 * 9000, 12 * 100000)),
          ("prod+NEUTRAL", n(out, 12 * 9000, 12 * 100000)), ("prod+W32+NEUTRAL", n(out, 12 * 9000, 12 * 100000)),
-         ("prod+Os", n(out, 12 * 4000, 12 * 50000)), ("prod+NATIVE", n(out, 12 * 4000, 12 * 50000)), ("clang+Os+NATIVE", n(out, 12 * 4000, 12 * 50000))]
+         ("prod+Os+W32", n(out, 12 * 4000, 12 * 50000)), ("prod+NATIVE+NDEBUG+UCHAR", n(out, 12 * 4000, 12 * 50000)), ("clang+Os+NATIVE", n(out, 12 * 4000, 12 * 50000))]
     if out.tier == "thorough":
         v += [("clang", 12 * 100000), ("msan", 12 * 20000), ("prod+O0", 12 * 30000), ("prod+UNAL0", 12 * 30000), ("prod+W32+NEUTRAL", 12 * 30000), ("clang+W32", 12 * 30000)]
     _blk(out, "C01", "c01", v)
@@ -135,7 +135,7 @@ def c02(out):
                 "walking-one tweaks (64), single-nibble tweaks (256), every nibble value in every cell (256), special keys exercising the k0' rotation, then random (key,tweak,block) triples; "
                 "compared with an independent model of MANTIS-r (forward cipher for encrypt schedules, the model's own inverse for decrypt schedules). distinct = distinct input hashes.")
     v = [("prod", n(out, 32 * 3000, 32 * 150000)), ("asan", n(out, 32 * 1200, 32 * 20000)), ("prod+W32", n(out, 32 * 1500, 32 * 40000)), ("prod+NEUTRAL", n(out, 32 * 1500, 32 * 40000)),
-         ("prod+W32+NEUTRAL", n(out, 32 * 1500, 32 * 40000)), ("prod+Os", n(out, 32 * 800, 32 * 10000)), ("prod+NATIVE", n(out, 32 * 800, 32 * 10000)), ("clang+Os+NATIVE", n(out, 32 * 800, 32 * 10000))]
+         ("prod+W32+NEUTRAL", n(out, 32 * 1500, 32 * 40000)), ("prod+Os+W32", n(out, 32 * 800, 32 * 10000)), ("prod+NATIVE+NDEBUG+UCHAR", n(out, 32 * 800, 32 * 10000)), ("clang+Os+NATIVE", n(out, 32 * 800, 32 * 10000))]
     if out.tier == "thorough":
         v += [("clang", 32 * 40000), ("msan", 32 * 8000), ("prod+O0", 32 * 10000), ("prod+W32+NEUTRAL", 32 * 10000)]
     _blk(out, "C02", "c02", v)
@@ -340,7 +340,7 @@ def _digest_compare(out, prop, base_label, what):
 
 def _xcfg_variants(out):
     if out.tier == "quick":
-        return ["prod", "prod+W32", "prod+UNAL0", "prod+NEUTRAL", "prod+W32+UNAL0", "prod+W32+NEUTRAL", "prod+NOSIMD", "prod+NOAVX2", "clang", "prod+O0", "clang+W32+UNAL0+NOSIMD", "clang+O1+NEUTRAL", "prod+Os", "clang+Os+W32", "prod+NATIVE", "clang+NATIVE+O2", "prod+Og+NATIVE+W32"]
+        return ["prod", "prod+W32", "prod+UNAL0", "prod+NEUTRAL", "prod+W32+UNAL0", "prod+W32+NEUTRAL", "prod+NOSIMD", "prod+NOAVX2", "clang", "prod+O0", "clang+W32+UNAL0+NOSIMD", "clang+O1+NEUTRAL", "prod+Os", "clang+Os+W32", "prod+NATIVE", "clang+NATIVE+O2", "prod+Og+NATIVE+W32", "prod+NDEBUG+UCHAR", "clang+O1+NDEBUG+UCHAR+W32"]
     vs = []
     for cc in ("prod", "clang"):
         for o in ("O0", "O1", "O2", "O3"):
@@ -357,6 +357,11 @@ def _xcfg_variants(out):
             for w in ("", "+W32"):
                 for u in ("", "+UNAL0"):
                     vs.append(cc + "+" + o + w + u + "+NATIVE")
+        # release-style defines and the other char signedness
+        for o in ("O0", "O2", "Os"):
+            for w in ("", "+W32"):
+                for simd in ("", "+NEUTRAL"):
+                    vs.append(cc + "+" + o + w + simd + "+NDEBUG+UCHAR")
     return ["prod"] + vs
 
 
@@ -364,7 +369,7 @@ def _xcfg_variants(out):
 def c12(out):
     import concurrent.futures as cf
     variants = _xcfg_variants(out)
-    out.rule = ("the working tree is built in %d configurations (word size x unaligned access x {SIMD all / no AVX2 / none / byte-order-neutral scalar} x gcc/clang x -O0..-O3, -Os, -Og, with and without -march=native on every file; quick = covering subset of 17) "
+    out.rule = ("the working tree is built in %d configurations (word size x unaligned access x {SIMD all / no AVX2 / none / byte-order-neutral scalar} x gcc/clang x -O0..-O3, -Os, -Og, with and without -march=native on every file, -DNDEBUG, -funsigned-char; quick = covering subset of 19) "
                 "and each build runs the same seeded workload: single-block SKINNY (all variants, in-between key sizes, both directions), MANTIS (rounds, modes, entry points incl. double swap), tweak histories, "
                 "CTR histories (carries, splits, mid-stream rekey, invalid calls) and parallel histories on every back end the build contains; inside each build results are compared with the reference models and across "
                 "back ends; per-chunk digests (32 cases) of all outputs and return values are compared with the shipped configuration. distinct = distinct workload cases by output digest (each executed in every build)." % len(variants))
